@@ -124,6 +124,8 @@ class UGrammar(Grammar, ABC, Generic[U, V, W]):
             args_P = program.arguments
             if function not in self.rules[start]:
                 return False, [(information, start)]
+            if len(args_P) != self.arguments_length_for(start, function):  # type: ignore
+                return False, [(information, start)]
             possibles = [
                 (a, b)
                 for a, b, _ in self.derive(information, start, function)  # type: ignore
@@ -143,6 +145,8 @@ class UGrammar(Grammar, ABC, Generic[U, V, W]):
             return True, possibles
         elif isinstance(program, (Primitive, Variable, Constant)):
             if program not in self.rules[start]:
+                return False, [(information, start)]
+            if self.arguments_length_for(start, program) != 0:
                 return False, [(information, start)]
             possibles = [(a, b) for a, b, _ in self.derive(information, start, program)]
             return True, possibles
